@@ -69,6 +69,7 @@ def run_path(prog, harness, dec, res, opts):
         res.steplimit.append(v or {'kind': 'steplimit', 'msg': str(e), 'decisions': list(it.taken)})
     except z3.Z3Exception as e:
         res.unsupported['z3: ' + str(e)[:160]] += 1
+        if os.environ.get('VERIF_DEBUG'): res.errors.append(traceback.format_exc()[-2500:])
     except RecursionError:
         res.unsupported['python recursion limit'] += 1
     except Exception as e:      # interpreter bug: inconclusive, with traceback
@@ -148,3 +149,22 @@ def replay_path(prog, harness, decisions, opts=None):
     res = Result()
     run_path(prog, harness, list(decisions), res, opts or {})
     return res
+
+
+def _job(args):
+    idx = args
+    name, harness, opts, nproc = _G['jobs'][idx]
+    r = explore(_G['prog'], harness, nproc=nproc, opts=opts, quiet=True)
+    return idx, r
+
+
+def explore_many(prog, jobs, parallel=8, nproc_each=2):
+    """run several small harnesses concurrently (each harness explores with few processes): for harnesses whose path count
+    is too small to use 16 cores.  jobs: list of (name, harness, opts).  Yields (name, Result) in completion order."""
+    _G['prog'] = prog
+    _G['jobs'] = [(n, h, o, nproc_each) for n, h, o in jobs]
+    import concurrent.futures as cf
+    ctx = multiprocessing.get_context('fork')
+    with cf.ProcessPoolExecutor(max_workers=parallel, mp_context=ctx) as ex:
+        for idx, r in ex.map(_job, range(len(jobs))):
+            yield jobs[idx][0], r
